@@ -5,24 +5,12 @@ import os
 HERE = os.path.dirname(os.path.dirname(os.path.abspath(__file__)))
 TITLES = {l["id"]: l["title"] for l in map(json.loads, open(os.path.join(HERE, "properties.jsonl")))}
 
-# id -> (category, technique, level text, level note, design_ref)
-CHECKS = {
-    "C01": ("proof", "Coq theorem over a Gallina port of variable_operation + exact-text correspondence with /repo",
-            "Coq theorem C01_varop_correct: for every names configuration, target, operator, operand (any int32 literal, $var, obj:sel, incl. operand = target), "
-            "function table and initial state, the emitted commands are well-formed, terminate, leave the operator's Minecraft meaning in the target and change nothing else; "
-            "the one false point of the pinned tree (+=/-= INT_MIN) is proved refuted and listed as a known finding. The model is tied to /repo on every run by exact equality of "
-            "the emitted text for ~4000 generated statements (all operator x operand-kind x target-kind shapes x 3 jmc.txt name sets, boundary and random literals).",
-            "Trusted: Coq kernel; MC/Sem.v (hand-written Minecraft semantics); printer; the correspondence harness. Model/VarOp.v is hand-written; command statements (`$x = <command>`) and vanilla-macro casts are outside the model.",
-            "DESIGN.md 6 C01"),
-    "C18": ("proof", "Coq theorems over a folder/feature model whose site tables are regenerated from the source by a fail-closed ast translator + probe-compile correspondence",
-            "Coq theorems C18_folders/C18_paths: for every pack format (all of Z x 0.1, incl. -1) and every JSON/function/tag call site and lookup of JMC - table regenerated "
-            "from the source on each run - the folder JMC uses equals the folder Minecraft reads, hence every emitted reference resolves; C18_require (raises iff pf<>-1 and pf<f); "
-            "C18_features (accepted => expressible on the version table). Tied to /repo by regeneration plus ~830 probe compiles per run (every site x every table format x 2 name sets) "
-            "whose real paths, references and diagnostics are compared with the model in Coq.",
-            "Trusted: Coq kernel, the Minecraft folder/feature specification in Model/PackFmt.v, translate_sites.py, the reference scanner. User-written JSON types and verbatim vanilla commands are outside. "
-            "Feature list = the gated features of the source + JMC.require.",
-            "DESIGN.md 6 C18"),
-}
+# one JSON file per claimed property under harness/manifest/: category, technique, text, note, design_ref
+import glob
+CHECKS = {}
+for _f in sorted(glob.glob(os.path.join(HERE, "harness", "manifest", "C*.json"))):
+    _d = json.load(open(_f))
+    CHECKS[os.path.basename(_f)[:-5]] = (_d["category"], _d["technique"], _d["text"], _d["note"], _d.get("design_ref", "DESIGN.md 6"))
 
 NOT_APPLICABLE = {}
 
